@@ -252,11 +252,11 @@ func ParseMIMEMessage(rawMessage string) (*ParsedMessage, error) {
 				return nil, fmt.Errorf("failed to parse multipart: %v", err)
 			}
 			fmt.Printf("DEBUG ParseMIMEMessage: Successfully parsed %d parts (including root container)\n", len(parsed.Parts))
-		} else {
-			fmt.Printf("DEBUG ParseMIMEMessage: multipart detected but no boundary!\n")
 		}
-	} else {
-		// Single part message
+	}
+	if !strings.HasPrefix(mediaType, "multipart/") || params["boundary"] == "" {
+		// Single part message; a multipart type without a boundary parameter cannot be split and is kept as one part
+		// (storing no part at all would accept a message whose content can never be fetched)
 		fmt.Printf("DEBUG ParseMIMEMessage: Single-part message (not multipart)\n")
 		bodyBytes, err := io.ReadAll(msg.Body)
 		if err != nil {
